@@ -1554,3 +1554,13 @@ M("v2-struct-size-added-before-compare-unadjusted", "C01", "fire V2", "src/compi
                         if field_name == field {
                             return struct_expr[bits..bits + bits_of_field].to_vec();
                         }""", "the accessed field's own size is part of its offset")
+
+M("v11-and-reads-x-twice", "C01", "fire V11", "src/circuit.rs",
+  """                Gate::And(x, y) => output[*x].unwrap() & output[*y].unwrap(),""",
+  """                Gate::And(x, y) => output[*x].unwrap() & output[*x].unwrap(),""", "reference evaluator: AND of a wire with itself")
+M("v11-register-not-is-identity", "C01", "fire V11", "src/register_circuit.rs",
+  """                Op::Not(Not(a)) => !regs[a],""",
+  """                Op::Not(Not(a)) => regs[a],""", "register evaluator: NOT copies")
+M("v11-quiet-operands-commuted", "C01", "quiet", "src/circuit.rs",
+  """                Gate::Xor(x, y) => output[*x].unwrap() ^ output[*y].unwrap(),""",
+  """                Gate::Xor(x, y) => output[*y].unwrap() ^ output[*x].unwrap(),""", "behaviour-preserving: operands of xor commuted")
